@@ -37,3 +37,27 @@ package benchtab
 //@   loop 1:
 //@     invariant 0 <= idx() <= rlen()
 //@     decreases rlen() - idx()
+
+// ---------------------------------------------------------------------------
+// Accumulation (C14): the builder's tables stay well formed and Add never
+// panics; which cell a measurement lands in is the subject of the bounded
+// pipeline check.
+
+// Every table has its three maps, every cell its residue set.
+//@ pure func tablesOK(b *Builder) bool = b.tables != nil &&
+//@     (forall k benchproc.Key :: has(b.tables, k) ==> b.tables[k] != nil && b.tables[k].rows != nil && b.tables[k].cols != nil && b.tables[k].cells != nil) &&
+//@     (forall k benchproc.Key, ck TableKey :: has(b.tables, k) && has(b.tables[k].cells, ck) ==> b.tables[k].cells[ck] != nil && b.tables[k].cells[ck].residue != nil)
+
+//@ func (b *Builder) newTable() (t *builderTable)
+//@   ensures t != nil && fresh(t) && t.rows != nil && t.cols != nil && t.cells != nil && fresh(t.rows) && fresh(t.cols) && fresh(t.cells)
+//@   ensures forall ck TableKey :: !has(t.cells, ck)
+
+//@ func (b *Builder) Add(result *benchfmt.Result)
+//@   props C14
+//@   opt allocates
+//@   requires b != nil && result != nil && b.tableBy != nil && b.rowBy != nil && b.colBy != nil && b.residue != nil && tablesOK(b)
+//@   modifies b.tables, heap(builderTable), heap(builderCell), heap(float64), heap(map[TableKey]*builderCell), heap(map[benchproc.Key]struct{}), heap(benchproc.Projection), heap(benchproc.Field), heap(benchproc.keyNode), heap(*benchproc.keyNode), heap(*benchproc.Field), heap(string), heap(map[string]int), heap(map[string]string), heap(map[uint64][]*benchproc.keyNode), heap(benchfmt.Result), heap(benchfmt.Config)
+//@   ensures tablesOK(b)
+//@   loop 1:
+//@     invariant 0 <= idx() <= rlen() && rlen() == len(result.Values) && tablesOK(b) && b.tables == old(b.tables)
+//@     invariant unchanged(b.tables, heap(builderTable), heap(builderCell), heap(float64), heap(map[TableKey]*builderCell), heap(map[benchproc.Key]struct{}), heap(benchproc.Projection), heap(benchproc.Field), heap(benchproc.keyNode), heap(*benchproc.keyNode), heap(*benchproc.Field), heap(string), heap(map[string]int), heap(map[string]string), heap(map[uint64][]*benchproc.keyNode), heap(benchfmt.Result), heap(benchfmt.Config))
